@@ -391,6 +391,10 @@ def rule_parallel(ctx):
     from . import C11
     AS.swapped_arguments(ctx, ctx.program, "W.R1", ("huginn_net_tls",), only_params=("max_connections", "queue_size", "batch_size", "timeout_ms", "num_workers"))
     W.fifo_batch(ctx, ctx.program, "huginn_net_tls", "tls", "W.R3")
+    # a ClientHello is reported however the capture is composed: a packet the analyzer rejects (a UDP datagram between two segments)
+    # does not end the run, and every worker can hold as many pending readers as configured
+    W.capture_loop_exits(ctx, ctx.program, "W.R7")
+    W.uniform_workers(ctx, ctx.program, "huginn_net_tls", "tls", "W.R2")
     C11.rule_R1(R.Retag(ctx, "C11."), only=("TlsClientHelloReader",))
 
 
